@@ -192,11 +192,17 @@ fn main() {
             tr.ev(json!({"ev":"Greedy","text":bytes_json(&text),"toks":u32s_json(&toks),"dec":bytes_json(&dec)}));
         }
         // token-set algebra around the word boundaries
-        let sizes = [1usize, 31, 32, 33, 63, 64, 65, 96, 97];
+        let sizes = [1usize, 31, 32, 32, 33, 63, 64, 64, 65, 96, 97];
         for _ in 0..ep["n_vob"].as_u64().unwrap_or(2) {
             let size = *rng.pick(&sizes);
-            let mut a = SimpleVob::alloc(size);
-            let mut b = SimpleVob::alloc(size);
+            // sets with spare capacity (as TokTrie::alloc_token_set makes them) and exact ones
+            let mk = |rng: &mut Rng| match rng.below(3) {
+                0 => SimpleVob::alloc(size),
+                1 => SimpleVob::alloc_with_capacity(size, size + 1),
+                _ => SimpleVob::alloc_with_capacity(size, size + 33),
+            };
+            let mut a = mk(&mut rng);
+            let mut b = mk(&mut rng);
             tr.ev(json!({"ev":"VobNew","size":size,"a":vob_json(&a),"b":vob_json(&b)}));
             for _ in 0..12 {
                 let i = rng.below(size);
